@@ -9,6 +9,8 @@ from . import gencc
 DRIVER_HEAD = r"""
 #include <stdio.h>
 #include <string.h>
+#include <unistd.h>
+#include <sys/wait.h>
 static unsigned long ext_index;
 int ext(int tag, long v) {
   unsigned long args[2]; args[0] = (unsigned long)(long)tag; args[1] = (unsigned long)v;
@@ -35,19 +37,15 @@ def c_arg(v, pt):
 def driver_source(program, tests):
     """tests: [[function index, [args]]]"""
     L = [program["src"], DRIVER_HEAD]
-    names = program["global_names"]
-    for n in names:
-        L.append("static char bk_%s[sizeof %s];" % (n, n))
     L.append("int main(void) {")
     L.append("  int buf[4];")
-    for n in names:
-        L.append("  memcpy(bk_%s, &%s, sizeof %s);" % (n, n, n))
     for i, (fi, args) in enumerate(tests):
         f = program["funcs"][fi]
-        for n in names:
-            L.append("  memcpy(&%s, bk_%s, sizeof %s);" % (n, n, n))
-        L.append("  buf[0] = 11; buf[1] = 22; buf[2] = 33; buf[3] = 44; ext_index = 0;")
+        # every test runs in its own forked child: fresh globals, and UBSan's per-location
+        # de-duplication of reports cannot hide undefined behaviour of a later test
         L.append('  printf("T %d\\n"); fflush(stdout); fprintf(stderr, "#T %d\\n"); fflush(stderr);' % (i, i))
+        L.append("  if (fork() == 0) {")
+        L.append("  buf[0] = 11; buf[1] = 22; buf[2] = 33; buf[3] = 44; ext_index = 0;")
         call = "%s(%s)" % (f["name"], ", ".join(c_arg(a, pt) for a, pt in zip(args, f["params"])))
         if f["ret"] == "void":
             L.append("  %s;" % call)
@@ -59,7 +57,8 @@ def driver_source(program, tests):
         for o in program["observers"]:
             L.append('  printf("O %%ld\\n", %s());' % o)
         L.append('  printf("B %d %d %d %d\\n", buf[0], buf[1], buf[2], buf[3]);')
-        L.append("  fflush(stdout);")
+        L.append("  fflush(stdout); fflush(stderr); _exit(0); }")
+        L.append("  { int st; wait(&st); }")
     L.append('  fprintf(stderr, "#END\\n");')
     L.append("  return 0;\n}")
     return "\n".join(L) + "\n"
@@ -69,13 +68,36 @@ class GccError(Exception):
     pass
 
 
-def run_gcc(program, tests, tmpdir, tag="t", sanitize=True):
+def run_reference(program, tests, tmpdir, tag="t", stats=None):
+    """gcc and clang, both with UBSan.  A test is usable only when neither reports undefined behaviour and
+    both agree (gcc folds some overflowing expressions away before UBSan sees them; clang does not)."""
+    a = run_gcc(program, tests, tmpdir, tag, compiler="gcc")
+    try:
+        b = run_gcc(program, tests, tmpdir, tag + "c", compiler="clang")
+    except (GccError, OSError):
+        if stats is not None:
+            stats.hist["clang_unavailable_or_rejects"] += 1
+        return a
+    out = []
+    for x, y in zip(a, b):
+        if x is None or y is None:
+            out.append(None)
+        elif (x["ret"], x["obs"], x["buf"], x["ext"]) != (y["ret"], y["obs"], y["buf"], y["ext"]):
+            if stats is not None:
+                stats.discard("gcc and clang disagree (not fully defined)")
+            out.append(None)
+        else:
+            out.append(x)
+    return out
+
+
+def run_gcc(program, tests, tmpdir, tag="t", sanitize=True, compiler="gcc"):
     """Returns list (per test) of None (discarded: UB / crash) or dict(ret, obs, buf, ext)."""
     src = os.path.join(tmpdir, "%s.c" % tag)
     exe = os.path.join(tmpdir, "%s.exe" % tag)
     with open(src, "w") as f:
         f.write(driver_source(program, tests))
-    cmd = ["gcc", "-O0", "-w", "-std=gnu99", "-o", exe, src]
+    cmd = [compiler, "-O0", "-w", "-std=gnu99", "-o", exe, src]
     if sanitize:
         cmd[1:1] = ["-fsanitize=undefined", "-fsanitize=float-cast-overflow", "-fsanitize-recover=all"]
     p = subprocess.run(cmd, capture_output=True, text=True)
@@ -126,11 +148,6 @@ def run_gcc(program, tests, tmpdir, tag="t", sanitize=True):
             rec["complete"] = True
     for i in range(len(results)):
         if i in bad or results[i] is None or not results[i]["complete"]:
-            results[i] = None
-    if not ended or r.returncode != 0:
-        # crashed somewhere: the test being executed at that point and later ones are unusable
-        last = max([i for i, x in enumerate(results) if x is not None], default=-1)
-        for i in range(last + 1, len(results)):
             results[i] = None
     return results
 
